@@ -20,6 +20,12 @@ package serviceinfo
 //@   callassert LimitReader#1: @small size < 7 ==> arg1 >= 65529
 //@   callassert LimitReader#1: @limit size >= 7 ==> arg1 == int64(size) - 7
 //@   ensures @keepreader u(err) == u(ErrSizeTooSmall) ==> r.r != nil
+//@   ensures @key err == nil ==> result0.Key == r.key
+//@   ensures @vallen err == nil ==> len(result0.Val) <= len(r.buffer)
+//@   ensures @val err == nil ==> forall i in 0..len(result0.Val): result0.Val[i] == r.buffer[i]
+//@   ensures @nonempty err == nil ==> len(result0.Val) > 0
+//@   callsites ReadFull 1
+//@   callassert ReadFull#1: @from u(arg0) == u(r.r)
 
 //@ func serviceinfo.cborEncodedLen
 //@   params b
@@ -47,6 +53,129 @@ package serviceinfo
 //@   invariant loop#1: chunk.Len == len(chunk.Modules) && chunk.Start + chunk.Len + len(modules) == len(arg1) && chunk.Start >= 0 && chunk.Len >= 0 && len(modules) >= 0
 //@   callassert writeModuleMessages$1#2: @chunk arg0.Len == len(arg0.Modules) && arg0.Len > 0 && arg0.Start + arg0.Len + len(modules) == len(arg1)
 //@   callassert writeModuleMessages$1#1: @last arg0.Len == len(arg0.Modules) && arg0.Start + arg0.Len == len(arg1)
-//@   callassert Encode#2: @count u(unwrap(arg1)) == u(len(modules))
+//@   callassert Encode#1: @count u(unwrap(arg1)) == u(len(modules))
 //@   callsites ForceNewMessage 1
 //@   callassert ForceNewMessage#1: @beforechunks u(arg0) == u(w)
+
+// Reassembly by key (C15): a chunk with the key of the previous one goes to the
+// same writer; any other chunk closes the previous writer, hands exactly one new
+// reader to the consumer and writes the key and then the value to its writer.
+//@ func serviceinfo.ChunkWriter.WriteChunk
+//@   params w kv
+//@   local pr = extract0:call:serviceinfo.ChunkWriter.pipe#1
+//@   local pw = extract1:call:serviceinfo.ChunkWriter.pipe#1
+//@   props C15 C10(sweep,functional)
+//@   sweep bounds,panic,nilmem
+//@   nilable kv
+//@   callsites chansend 1
+//@   callsites pipe 1
+//@   callsites Close 1
+//@   callsites Write 2
+//@   callsites Encode 1
+//@   callsites NewEncoder 1
+//@   callassert Write#1: @samekey u(recv) == u(old(w.w)) && old(w.w) != nil && kv.Key == old(w.prevKey) && bytes(arg1) == bytes(kv.Val)
+//@   callassert Close#1: @closeold u(recv) == u(old(w.w)) && kv.Key != old(w.prevKey)
+//@   callassert chansend#1: @reader u(arg0) == u(w.readers) && u(arg1) == u(pr) && (old(w.w) == nil || kv.Key != old(w.prevKey))
+//@   callassert chansend#1: @closedold old(w.w) != nil ==> closed(old(w.w)) == True()
+//@   callassert NewEncoder#1: @keyto u(arg0) == u(pw) && u(w.w) == u(pw) && w.prevKey == kv.Key
+//@   callassert Encode#1: @key unwrap(arg1) == kv.Key
+//@   callassert Write#2: @val u(recv) == u(pw) && bytes(arg1) == bytes(kv.Val)
+//@   ensures @nil kv == nil ==> result != nil
+//@   ensures @same kv != nil && old(w.w) != nil && kv.Key == old(w.prevKey) ==> u(w.w) == u(old(w.w)) && w.prevKey == old(w.prevKey) && absorbed(w.w) == happ(old(absorbed(w.w)), bytes(kv.Val))
+//@   ensures @new result == nil && kv != nil && !(old(w.w) != nil && kv.Key == old(w.prevKey)) ==> w.prevKey == kv.Key
+
+// A new logical value (or an explicit yield) closes the previous value's writer
+// before its reader is handed to the chunker; a yield is a pipe closed at once.
+//@ func serviceinfo.UnchunkWriter.nextPipe
+//@   params w forceNewMessage
+//@   local pr = extract0:call:serviceinfo.UnchunkWriter.pipe#1
+//@   local pw = extract1:call:serviceinfo.UnchunkWriter.pipe#1
+//@   props C15
+//@   sweep bounds,panic
+//@   callsites chansend 1
+//@   callsites pipe 1
+//@   callsites Close 2
+//@   callassert Close#1: @closeold u(recv) == u(old(w.w))
+//@   callassert chansend#1: @reader u(arg0) == u(w.readers) && u(arg1) == u(pr)
+//@   callassert chansend#1: @closedold old(w.w) != nil ==> closed(old(w.w)) == True()
+//@   callassert Close#2: @yield u(recv) == u(pw) && forceNewMessage
+//@   ensures @new ? result == nil ==> u(w.w) == u(pw)
+//@   ensures @closedprev old(w.w) != nil ==> closed(old(w.w)) == True()
+//@   ensures @yielded result == nil && forceNewMessage ==> closed(w.w) == True()
+//@   ensures @closedpipe result != nil ==> u(w.w) == u(old(w.w))
+
+// The key of a logical value is the first thing written to its own pipe.
+//@ func serviceinfo.UnchunkWriter.NextServiceInfo
+//@   params w moduleName messageName
+//@   props C15
+//@   sweep bounds,panic
+//@   callsites nextPipe 1
+//@   callsites Encode 1
+//@   callassert nextPipe#1: @noyield u(arg0) == u(w) && !arg1
+//@   callassert Encode#1: @key u(e.w) == u(w.w)
+//@   ensures @closedprev old(w.w) != nil ==> closed(old(w.w)) == True()
+
+//@ func serviceinfo.UnchunkWriter.ForceNewMessage
+//@   params w
+//@   props C15 C16
+//@   sweep bounds,panic
+//@   callsites nextPipe 1
+//@   callassert nextPipe#1: @yield u(arg0) == u(w) && arg1
+//@   ensures @yielded result == nil ==> closed(w.w) == True()
+
+// The reader handed to the consumer is the one received; its key is decoded from it.
+//@ func serviceinfo.UnchunkReader.NextServiceInfo
+//@   params r
+//@   local key = UnOp#5 | addr:Alloc#1
+//@   local ok = extract1:UnOp#2
+//@   local val = ChangeInterface#1
+//@   props C15
+//@   sweep bounds,panic
+//@   callsites Decode 1
+//@   callassert NewDecoder#1: @from u(arg0) == u(val)
+//@   ensures @none !ok ==> key == ""
+
+// End of the stream: the channel of readers is closed exactly once and the last
+// value's writer is closed (its reader sees EOF, or the given error).
+//@ func serviceinfo.ChunkWriter.Close
+//@   params w
+//@   props C15
+//@   sweep bounds,panic
+//@   callsites chanclose 1
+//@   callsites Close 1
+//@   callassert chanclose#1: @readers u(arg0) == u(w.readers)
+//@   callassert Close#1: @last u(recv) == u(w.w)
+//@   ensures @closed w.w != nil ==> closed(w.w) == True()
+
+//@ func serviceinfo.ChunkWriter.CloseWithError
+//@   params w err
+//@   props C15
+//@   sweep bounds,panic
+//@   callsites chanclose 1
+//@   callsites CloseWithError 1
+//@   callassert chanclose#1: @readers u(arg0) == u(w.readers)
+//@   callassert CloseWithError#1: @last u(recv) == u(w.w) && u(arg1) == u(err)
+
+//@ func serviceinfo.UnchunkWriter.Close
+//@   params w
+//@   props C15
+//@   sweep bounds,panic
+//@   callsites chanclose 2
+//@   callsites Closer.Close 1
+//@   callassert chanclose#1: @closing u(arg0) == u(w.closing)
+//@   callassert chanclose#2: @readers u(arg0) == u(w.readers)
+//@   callassert Closer.Close#1: @last u(recv) == u(w.w) && w.w != nil
+
+//@ func serviceinfo.UnchunkWriter.CloseWithError
+//@   params w err
+//@   local pr = extract0:call:io.Pipe#1
+//@   props C15
+//@   sweep bounds,panic
+//@   callsites chanclose 2
+//@   callsites chansend 1
+//@   callsites CloseWithError 1
+//@   callassert chanclose#1: @closing u(arg0) == u(w.closing)
+//@   callassert chanclose#2: @readers u(arg0) == u(w.readers)
+//@   callassert chansend#1: @errpipe u(arg0) == u(w.readers) && old(w.w) == nil
+//@   callassert chansend#1: @errreader u(unwrap(arg1)) == u(pr)
+//@   callassert CloseWithError#1: @last u(recv) == u(w.w) && u(arg1) == u(err)
